@@ -322,7 +322,7 @@ pub fn run(args: &Args, rep: &mut Report) {
         }
     }
     // ---- random / mutation-derived pairs ----
-    let n_random = args.get_u64("n", if miri { 6 } else if args.tier_thorough { 300_000 } else { 6_000 });
+    let n_random = args.get_u64("n", if miri { 6 } else if args.tier_thorough { 2_000_000 } else { 6_000 });
     for i in 0..n_random {
         if !args.mine(i) {
             continue;
